@@ -228,3 +228,42 @@ def encode_contents(data: bytes, cid: int, mi: int, as_file: bool) -> bool:
 
 def _dl():
     return 6 if tier() == 'thorough' else 4
+
+
+# ------------------------------------------------------------------------------------------------
+# E3: the inductive step of chunks() for ANY number of fragments, as a direct SMT lemma (vt/ast2smt.py)
+# ------------------------------------------------------------------------------------------------
+
+@cond(bounds='inductive step of the chunking loop over unbounded integers (no bound on the number of fragments): the '
+             'generator expression of chunks() and the maxsize computations of fragment() / fragment_file() are read '
+             'from the AST of the current source and translated to SMT-LIB2 (QF_LIA); 9 negated obligations are given '
+             'to z3 and cvc5 (both must answer unsat): chunk non-empty and <= size, starts at the loop position, '
+             'has_next <=> the loop yields again, contiguity, last chunk ends at the end, loop covers [0, len), step = '
+             'size, payload + 6 <= maximum PDU length (M >= 7).  If the source no longer has the expected shape the '
+             'lemma reports not-applicable (inconclusive) and the CrossHair conditions above stand alone',
+      engine='smt', reach=False, timeout=120)
+def chunks_step_lemma(L: int, S: int, P: int, M: int) -> bool:
+    """
+    pre: True
+    post: _
+    """
+    # This body is the *replay* of a solver model on the real functions (the deciding step is the SMT query).
+    if L > 2000000 or M > 2000000:
+        raise api.HarnessUnsupported('model too large to be replayed concretely')
+    if L >= 1 and S >= 1:
+        data = bytes(i % 251 for i in range(L))
+        pos = 0
+        parts = []
+        for chunk, has_next in dm.chunks(data, S):
+            if not (1 <= len(chunk) <= S) or data[pos:pos + len(chunk)] != chunk:
+                return False
+            pos += len(chunk)
+            parts.append(has_next)
+        if pos != L or parts[-1] or not all(parts[:-1]):
+            return False
+    if M >= 7:
+        for frag in (dm.fragment(b'x' * (3 * M), M, 0, 2), dm.fragment_file(pdu.cStringIO(b'x' * (3 * M)), M, 0, 2)):
+            for chunk, code in frag:
+                if len(chunk) < 1 or len(chunk) + 6 > M:
+                    return False
+    return True
